@@ -292,29 +292,44 @@ func c19(p *core.Program, r *core.Report, only string) {
 			r.Fail(R2, key, p.Pos(rc.Pos()), "the restart is not guarded by a manual-shutdown check made in the same critical section")
 		}
 	}
-	// ---- R3
-	var store ssa.Instruction
-	core.EachInstr(announce, func(in ssa.Instruction) {
-		if fl, _, v := core.StoredField(in); fl == fData && !core.IsNilConst(v) && store == nil {
-			store = in
+	// ---- R3 (the bodies of Announce / Unannounce may be lock-free helpers the exported methods forward to)
+	storesReq := core.NewMust(p, 2, func(in ssa.Instruction) bool {
+		fl, _, v := core.StoredField(in)
+		return fl == fData && !core.IsNilConst(v)
+	})
+	anyStore := false
+	eachInstrWithCallees(p, announce, "mdns", 2, func(in ssa.Instruction) {
+		if fl, _, v := core.StoredField(in); fl == fData && !core.IsNilConst(v) {
+			anyStore = true
 		}
 	})
 	key := "Announce records the request before any return"
-	if store == nil {
+	if !anyStore {
 		r.Fail(R3, key, p.Pos(announce.Pos()), "Announce never stores the announcement data")
-	} else if bad := core.PathSearch(announce, nil, core.IsReturn, func(in ssa.Instruction) bool { return in == store }, nil); bad != nil {
+	} else if bad := core.MustPass(announce, nil, storesReq.Instr, nil); bad != nil {
 		r.Fail(R3, key, p.Pos(bad.Pos()), "Announce can return (e.g. with an error while the daemon is away) without having recorded the request: after the reconnect the old or no announcement is made")
 	} else {
-		r.OK(R3, key, p.Pos(store.Pos()), "stored on every path")
+		r.OK(R3, key, p.Pos(announce.Pos()), "stored on every path")
 	}
 	key = "Unannounce clears the request on all paths"
-	if bad := core.MustPass(unannounce, nil, func(in ssa.Instruction) bool {
+	clearsReq := core.NewMust(p, 2, func(in ssa.Instruction) bool {
 		fl, _, v := core.StoredField(in)
 		return fl == fData && core.IsNilConst(v)
-	}, nil); bad != nil {
+	})
+	if bad := core.MustPass(unannounce, nil, clearsReq.Instr, nil); bad != nil {
 		r.Fail(R3, key, p.Pos(bad.Pos()), "Unannounce can return without clearing the stored request: it is announced again after a reconnect")
 	} else {
 		r.OK(R3, key, p.Pos(unannounce.Pos()), "cleared on every path")
+	}
+	key = "Shutdown clears the stored request"
+	isDaemonTeardown := func(in ssa.Instruction) bool {
+		c := core.Common(in)
+		return c != nil && c.IsInvoke() && c.Method.Name() == "Shutdown" && c.Method.Pkg() != nil && strings.Contains(c.Method.Pkg().Path(), "avahi")
+	}
+	if bad := core.PathSearch(shutdown, nil, isDaemonTeardown, clearsReq.Instr, nil); bad != nil {
+		r.Fail(R3, key, p.Pos(bad.Pos()), "a path of Shutdown tears the daemon connection down with the announce request still stored (the entry group is freed but the request is kept): a reconnect that is in flight, or the next Start followed by a daemon restart, announces the service of the run that was shut down")
+	} else {
+		r.OK(R3, key, p.Pos(shutdown.Pos()), "cleared (directly or through Unannounce) before the daemon connection is torn down")
 	}
 	key = "Shutdown sets manualShutdown before releasing mux"
 	isSet := func(in ssa.Instruction) bool {
@@ -554,6 +569,60 @@ func c19(p *core.Program, r *core.Report, only string) {
 			r.Floor(R9, 3)
 		}
 	}
+	// ---- R10: a wait inside a retry loop is armed inside the loop
+	const R10 = "C19.R10 retry-wait-rearmed"
+	r.Rule(R10, "a receive from the channel of a *time.Timer that sits in a loop has the timer's creation or Reset in the same loop (time.After per iteration is fine): a timer created once before the loop fires once - after the first failed attempt the reconnect goroutine blocks for ever, never resumes browsing or the announcement and no longer sees a manual shutdown")
+	{
+		nw := 0
+		for _, fn := range fns {
+			fn := fn
+			core.EachInstr(fn, func(in ssa.Instruction) {
+				var ch ssa.Value
+				switch x := in.(type) {
+				case *ssa.UnOp:
+					if x.Op == token.ARROW {
+						ch = x.X
+					}
+				case *ssa.Select:
+					for _, st := range x.States {
+						if st.Dir == types.RecvOnly {
+							if timerOfChan(st.Chan) != nil && core.InLoop(in.Block()) {
+								ch = st.Chan
+							}
+						}
+					}
+				}
+				if ch == nil || !core.InLoop(in.Block()) {
+					return
+				}
+				nw++
+				key := "timed wait in a loop of " + p.FnName(fn)
+				tm := timerOfChan(ch)
+				if tm == nil {
+					r.OK(R10, key, p.Pos(in.Pos()), "not a stored timer (time.After / other channel)")
+					return
+				}
+				// the timer value must be produced (NewTimer) or Reset inside the loop
+				rearmed := false
+				if c, ok := tm.(*ssa.Call); ok && core.InLoop(c.Block()) && sameLoop(c.Block(), in.Block()) {
+					rearmed = true
+				}
+				core.EachInstr(fn, func(y ssa.Instruction) {
+					if c := core.Common(y); c != nil && core.CalleeName(c) == "(*time.Timer).Reset" && len(c.Args) > 0 && core.Canon(c.Args[0]) == core.Canon(tm) && sameLoop(y.Block(), in.Block()) {
+						rearmed = true
+					}
+				})
+				if rearmed {
+					r.OK(R10, key, p.Pos(in.Pos()), "timer created or reset in the loop")
+				} else {
+					r.Fail(R10, key, p.Pos(in.Pos()), "the loop waits on a timer that is armed once, before the loop, and never reset: the second iteration blocks for ever")
+				}
+			})
+		}
+		if nw == 0 {
+			r.Fail(R10, "timed waits", "", "no wait in a loop found in package mdns: the reconnect loop is not recognisable")
+		}
+	}
 	// ---- R4
 	nlisten := 0
 	for _, fn := range fns {
@@ -742,4 +811,28 @@ func checkHandoverLocks(p *core.Program, r *core.Report, fns []*ssa.Function, li
 	if n == 0 {
 		r.OK(rule, "no blocking hand-over under a lock", "", "nothing to check")
 	}
+}
+
+// timerOfChan: ch is the C field of a *time.Timer; returns the timer value.
+func timerOfChan(ch ssa.Value) ssa.Value {
+	ld, ok := ch.(*ssa.UnOp)
+	if !ok || ld.Op != token.MUL {
+		return nil
+	}
+	fa, ok := ld.X.(*ssa.FieldAddr)
+	if !ok {
+		return nil
+	}
+	if n := core.NamedOf(fa.X.Type()); n != nil && n.Obj().Pkg() != nil && n.Obj().Pkg().Path() == "time" && n.Obj().Name() == "Timer" {
+		return fa.X
+	}
+	return nil
+}
+
+// sameLoop: a and b lie on a common cycle of the control-flow graph.
+func sameLoop(a, b *ssa.BasicBlock) bool {
+	if a.Parent() != b.Parent() {
+		return false
+	}
+	return core.ReachableFrom(a, nil)[b] && core.ReachableFrom(b, nil)[a]
 }
